@@ -3,6 +3,11 @@
 import json, subprocess
 
 CLAIMED = {
+ "C20": dict(level="model_checking", engine="c20",
+   technique="E2 families over the real wrapper crates (stateless exhaustive exploration + reference models + co-simulation) for parking_lot and dashmap; exhaustive enumeration of operation histories for the deterministic collections, each built twice in-process and once in a child process; replay and isolation-pair drivers for the rand / lazy_static wrappers",
+   text="parking_lot: every schedule of generated programs over all lock_api operations of RwLock/Mutex (shared/exclusive/upgradable, try_*, upgrade, three downgrades, fair unlocks) vs the lock_api contract model plus a holder/value ledger. dashmap/dashset: programs on two colliding keys incl. guards held across operations vs a plain map with a single reader/writer lock (= linearizability with real-time order). Collections: all histories of length <= 4 (5 thorough) over 19 map / 27 set operations on 3 keys: iteration order identical across instances and processes, contents equal to std, hasher still the fixed one. rand wrapper: every draw under Shuttle's control (model check under the constant data stream + replay from the recorded schedule); lazy_static wrapper: re-initialised per execution (A-then-B pairs).",
+   note="Trusted: reference models written from lock_api / dashmap documentation; F7/F8 and the dashmap recursive-read finding are described by weakened models so that only those deviations are attributed to them.",
+   design="DESIGN.md §4 C20"),
  "C01": dict(level="exploration", engine="e2-replay",
    technique="stateless exhaustive exploration of every program's complete choice tree; each execution is re-executed from the printed form of the schedule the runtime recorded, under a recording wrapper, and compared call by call and log entry by log entry",
    text="For every execution (passing, panicking, deadlocking) of the generated programs of 8 families (incl. shuttle::rand draws served from the seeded data stream): the runtime's recorded schedule equals the independently reconstructed sequence of answered scheduler calls; ReplayScheduler::new_from_encoded(printed string) reproduces every scheduler call, every draw, every operation result (incl. vector clocks) and the same ending; UncontrolledNondeterminismCheckScheduler around the same exploration never complains.",
